@@ -37,12 +37,12 @@ GOENV = {
 # race build, address-space limit (GiB, 0 = none)
 DEFAULT = dict(shards=(8, 16), limit=(240, 2400), race=False, as_gib=16, native_fuzz=False)
 PROPS = {
-    "C01": dict(pkg="c01", native_fuzz=("FuzzParse", 120)), "C02": dict(pkg="c02"), "C03": dict(pkg="c03"), "C04": dict(pkg="c04", native_fuzz=("FuzzTokens", 90)),
+    "C01": dict(pkg="c01", native_fuzz=("FuzzParse", 120)), "C02": dict(pkg="c02", cli="plain"), "C03": dict(pkg="c03"), "C04": dict(pkg="c04", native_fuzz=("FuzzTokens", 90)),
     "C05": dict(pkg="c05"), "C06": dict(pkg="c06"), "C07": dict(pkg="c07"), "C08": dict(pkg="c08"),
-    "C09": dict(pkg="c09", shards=(4, 16)), "C10": dict(pkg="c10"),
-    "C11": dict(pkg="c11", race=True, as_gib=0, shards=(4, 8)),
-    "C12": dict(pkg="c12"), "C13": dict(pkg="c13"), "C14": dict(pkg="c14"), "C15": dict(pkg="c15"),
-    "C16": dict(pkg="c16"), "C17": dict(pkg="c17"), "C18": dict(pkg="c18", shards=(8, 16)),
+    "C09": dict(pkg="c09", shards=(4, 16), cli="plain"), "C10": dict(pkg="c10"),
+    "C11": dict(pkg="c11", race=True, as_gib=0, shards=(4, 8), cli="race"),
+    "C12": dict(pkg="c12"), "C13": dict(pkg="c13"), "C14": dict(pkg="c14", cli="plain"), "C15": dict(pkg="c15"),
+    "C16": dict(pkg="c16", cli="plain"), "C17": dict(pkg="c17"), "C18": dict(pkg="c18", shards=(8, 16)),
 }
 
 
@@ -115,7 +115,27 @@ def build(prop):
         print("[vdrive] BUILD FAILED for %s:\n%s" % (prop, r.stdout))
         return None
     print("[vdrive] built %s in %.1fs" % (os.path.relpath(out, ROOT), time.time() - t0))
+    if c.get("cli") and not build_cli(race=(c["cli"] == "race")):
+        return None
     return out
+
+
+def cli_path(race=False):
+    return os.path.join(BIN, "php-parser" + (".race" if race else ""))
+
+
+def build_cli(race=False):
+    """cmd/php-parser of the tree under test: several properties name the command-line tool as an
+    observation point (-pb, -d, -r, -e, -phpver)."""
+    cmd = ["go", "build", "-o", cli_path(race)]
+    if race:
+        cmd.append("-race")
+    cmd.append("github.com/z7zmey/php-parser/cmd/php-parser")
+    r = subprocess.run(cmd, cwd=ROOT, env=goenv(), stdout=subprocess.PIPE, stderr=subprocess.STDOUT, text=True)
+    if r.returncode != 0 or not os.path.exists(cli_path(race)):
+        print("[vdrive] BUILD FAILED for cmd/php-parser:\n%s" % r.stdout)
+        return False
+    return True
 
 
 def limiter(as_gib):
@@ -142,6 +162,10 @@ def run_shards(prop, tier, seed, binpath, extra_env=None, run_filter=None, nshar
         env = goenv()
         env.update({"VERIF_TIER": tier, "VERIF_SEED": str(seed), "VERIF_SHARD": str(i), "VERIF_SHARDS": str(n),
                     "VERIF_STATS": os.path.join(wd, "stats.%d.json" % i)})
+        env["VERIF_TMP"] = os.path.join(wd, "tmp.%d" % i)
+        if c.get("cli"):
+            env["VERIF_CLI"] = cli_path(False) if c["cli"] != "race" else ""
+            env["VERIF_CLI_RACE"] = cli_path(True) if c["cli"] == "race" else ""
         if c["race"]:
             env["GORACE"] = "halt_on_error=1 exitcode=66 log_path=" + os.path.join(wd, "race.%d" % i)
         if extra_env:
